@@ -82,6 +82,52 @@ fn project_ok(gas: u64, before: &SolutionSet, after: &SolutionSet) -> Verdict {
     Verdict::Ok { gas, computed }
 }
 
+/// An outputs pass over `cache` against an older pre-state (every value perturbed), muted: it
+/// leaves no trace in the event log and does not consume arrival numbers. Its result is ignored.
+fn prelude(w: &Workload, m: &Mat, config: &Arc<CheckPredicateConfig>, cache: &mut HashMap<u16, sol::Cache>) {
+    if w.prefix_prelude && m.set.solutions.len() >= 2 {
+        // the map was last used when the set was only half as long (same state)
+        let mut set = m.set.clone();
+        set.solutions.truncate((set.solutions.len() + 1) / 2);
+        one_prelude(w, m, config, cache, w.state_map(), set);
+    }
+    if w.stale_prelude {
+        // … or for this very set, when the state was an older one (every value different)
+        let older: StateMap = w
+            .state_map()
+            .into_iter()
+            .map(|(k, v)| (k, v.into_iter().map(|x| x ^ 0x5A5A).collect()))
+            .collect();
+        one_prelude(w, m, config, cache, older, m.set.clone());
+    }
+}
+
+fn one_prelude(
+    w: &Workload,
+    m: &Mat,
+    config: &Arc<CheckPredicateConfig>,
+    cache: &mut HashMap<u16, sol::Cache>,
+    state: StateMap,
+    set: SolutionSet,
+) {
+    let saved = crate::store::save_counters();
+    crate::events::mute(true);
+    let faults = w.faults.iter().filter(|f| !matches!(f, crate::store::Fault::Transient { .. })).cloned().collect();
+    let pre = SimState::new(state, faults);
+    let post0: SimState = pre.post_view(StateMap::new());
+    let _ = sol::check_set_predicates(
+        &(pre, post0),
+        Arc::new(set),
+        m.predicates.clone(),
+        m.programs.clone(),
+        config.clone(),
+        RunMode::Outputs,
+        cache,
+    );
+    crate::events::mute(false);
+    crate::store::restore_counters(saved);
+}
+
 /// Run the workload through the real checker (whatever scheduling mode is active).
 pub fn run_checker(w: &Workload, m: &Mat) -> Verdict {
     let config = Arc::new(CheckPredicateConfig {
@@ -103,6 +149,7 @@ pub fn run_checker(w: &Workload, m: &Mat) -> Verdict {
         }
         Entry::RawOutputs => {
             let mut cache = HashMap::new();
+            prelude(w, m, &config, &mut cache);
             let pre = m.state.clone();
             let post0: SimState = pre.post_view(StateMap::new());
             let set = Arc::new(m.set.clone());
@@ -183,6 +230,7 @@ pub fn run_checker(w: &Workload, m: &Mat) -> Verdict {
             // what the two-pass entry point does, driven from outside: the outputs pass, then the
             // checks pass over the same cache, with the harness's own post view
             let mut cache = HashMap::new();
+            prelude(w, m, &config, &mut cache);
             let pre = m.state.clone();
             let post0: SimState = pre.post_view(StateMap::new());
             let (gas1, set1) = match sol::check_and_compute_solution_set(
